@@ -68,7 +68,8 @@ class CHECK(core.Check):
                   "every sequence of passive calls (advance by any amount, process, send, receive): C38_create_any_combination; "
                   "C38_redo_once_per_interval (the record of calls follows the reference schedule: retransmit the latest "
                   "message exactly when a full redo interval has elapsed since the last restart, restart then), "
-                  "C38_redo_spacing / C38_redo_count_bound (at most one per interval), C38_fails_iff_timeout_first, "
+                  "C38_redo_spacing / C38_redo_count_bound (at most one per interval), C38_redo_exact_when_polled (polled every "
+                  "tick it retransmits at exactly the stamps s+R, s+2R, ...), C38_fails_iff_timeout_first, "
                   "C38_timeout_takes_precedence, C38_no_redo_after_timeout, C38_timeout_zero_never_expires, "
                   "C38_timers_well_formed_always (the hypothesis is an invariant of every call), C38_start_exchanger, "
                   "C38_started_exchanger_schedule (end to end from create+start). C38_counterexample_asis: the unpatched "
